@@ -130,6 +130,7 @@ def run(ctx: Ctx):
     check_histories(ctx)
     check_indexed_frames(ctx)
     check_broadcast(ctx)
+    check_user_ellipsoids(ctx)
     check_acr(ctx)
     check_azel(ctx)
     ctx.traces = ctx.evaluations
@@ -1107,6 +1108,139 @@ def _compare_broadcast(ctx, case, impl, model, na, nb, tol):
 
 
 # --------------------------------------------------------------------------------------------------
+# user-built ellipsoids: the frame belongs to the *parameters* of the observer's ellipsoid, whatever its name and
+# whatever was converted before (the trs <-> llh kernels are memoised per (coordinates, ellipsoid))
+
+HISTORIC = [("Bessel 1841", 6377397.155, 299.1528128), ("International 1924", 6378388.0, 297.0), ("Clarke 1866", 6378206.4, 294.9786982),
+            ("Krassovsky 1940", 6378245.0, 298.3), ("Airy 1830", 6377563.396, 299.3249646), ("GRS67", 6378160.0, 298.247167427),
+            ("mean sphere", 6371000.0, math.inf), ("GRS80 parameters", 6378137.0, 298.257222101)]
+
+
+def own_llh2trs(a, f_inv, lat, lon, h):
+    f = 0.0 if math.isinf(f_inv) else 1.0 / f_inv
+    e2 = f * (2 - f)
+    N = a / math.sqrt(1 - e2 * math.sin(lat) ** 2)
+    return [(N + h) * math.cos(lat) * math.cos(lon), (N + h) * math.cos(lat) * math.sin(lon), (N * (1 - e2) + h) * math.sin(lat)]
+
+
+def own_trs2llh(a, f_inv, x, y, z):
+    """fixed-point iteration to convergence (independent of midgard, nothing memoised)"""
+    f = 0.0 if math.isinf(f_inv) else 1.0 / f_inv
+    e2 = f * (2 - f)
+    p = math.hypot(x, y)
+    lat = math.atan2(z, p * (1 - e2))
+    for _ in range(30):
+        N = a / math.sqrt(1 - e2 * math.sin(lat) ** 2)
+        lat = math.atan2(z + e2 * N * math.sin(lat), p)
+    N = a / math.sqrt(1 - e2 * math.sin(lat) ** 2)
+    h = p / math.cos(lat) - N if abs(math.cos(lat)) > 1e-3 else z / math.sin(lat) - N * (1 - e2)
+    return lat, math.atan2(y, x), h
+
+
+def check_user_ellipsoids(ctx: Ctx):
+    Position, PositionDelta, PosVel, PosVelDelta, ellipsoid, rotation, T = _imp()
+    rng = ctx.rng
+    n = ctx.budget(120, 3000)
+    for k in range(n):
+        mode = rng.choice(["same name, other axes", "same name, other axes", "other name, same axes", "other name, other axes"])
+        pa = rng.choice(HISTORIC)
+        if mode == "other name, same axes":
+            pb = pa
+        elif rng.random() < 0.3:
+            # the same ellipsoid "corrected": axis and flattening changed a little
+            pb = (pa[0], pa[1] + rng.choice([-1, 1]) * 10.0 ** rng.uniform(-1, 2), pa[2] if math.isinf(pa[2]) else pa[2] + rng.uniform(-0.5, 0.5))
+        else:
+            pb = rng.choice([q for q in HISTORIC if q[1:] != pa[1:]])
+        name_a = f"user ellipsoid {rng.randrange(3)}"
+        name_b = name_a if mode.startswith("same name") else name_a + " (b)"
+        m = rng.choice([1, 1, 2, 3])
+        shape = rng.choice(["1d", "1xk"]) if m == 1 else "nxk"
+        llh_a = [[gen_lat(rng), gen_lon(rng), rng.uniform(-1e4, 1e5)] for _ in range(m)]
+        xyz = [own_llh2trs(pa[1], pa[2], *r) for r in llh_a]
+        targets = [(np.array(p) + np.array(unit_dir(rng)) * rng.uniform(1e4, 3e7)).tolist() for p in xyz]
+        case = {"fn": "user ellipsoids", "mode": mode, "first": [name_a, pa[1], pa[2]], "second": [name_b, pb[1], pb[2]], "shape": shape,
+                "trs": xyz, "target_trs": targets, "delta": [gen_vec(rng, -3, 7) for _ in range(m)],
+                "order": rng.choice(["first, second", "second, first", "first, second, first"]), "six": rng.random() < 0.3}
+        ctx.case(case, nontrivial=True)
+        ctx.count(f"user-ellipsoid:{mode}")
+        ctx.count(f"user-ellipsoid:order={case['order']}")
+        try:
+            one_user_ellipsoids(ctx, case)
+        except Exception as e:
+            gviolate(ctx, f"raises:user-ellipsoid:{type(e).__name__}", f"frame on a user-built ellipsoid raised {type(e).__name__}: {e}", case)
+
+
+def one_user_ellipsoids(ctx, c):
+    Position, PositionDelta, PosVel, PosVelDelta, ellipsoid, rotation, T = _imp()
+    drv = ctx.driver
+    shape, m, six = c["shape"], len(c["trs"]), c["six"]
+    registry_before = dict(ellipsoid._ELLIPSOIDS)
+    results = {}
+    try:
+        for which in c["order"].split(", "):
+            name, a, f_inv = c[which]
+            # defined (again) at this point of the session: a second definition under a name in use replaces the registered one
+            E = ellipsoid.Ellipsoid(name, a=a, f_inv=f_inv, description="defined by the user")
+            other = Position(as_shape(c["target_trs"], shape), "trs", ellipsoid=E)
+            if six:
+                pos = PosVel(as_shape([list(p) + [10.0, -20.0, 30.0] for p in c["trs"]], shape), "trs", ellipsoid=E, other=other)
+                delta = PosVelDelta(as_shape([list(d) + [0.0, 0.0, 0.0] for d in c["delta"]], shape), "trs", ref_pos=pos)
+            else:
+                pos = Position(as_shape(c["trs"], shape), "trs", ellipsoid=E, other=other)
+                delta = PositionDelta(as_shape(c["delta"], shape), "trs", ref_pos=pos)
+            got = {"t2e": np.asarray(pos.trs2enu, dtype=float).reshape(-1, 3, 3), "e2t": np.asarray(pos.enu2trs, dtype=float).reshape(-1, 3, 3),
+                   "llh": rows_of(np.asarray(pos.pos.llh.val, dtype=float)), "enu": rows_of(np.asarray(delta.enu, dtype=float))[:, :3],
+                   "az": np.atleast_1d(np.asarray(pos.azimuth, dtype=float)), "el": np.atleast_1d(np.asarray(pos.elevation, dtype=float)),
+                   "zd": np.atleast_1d(np.asarray(pos.zenith_distance, dtype=float))}
+            results[which] = got
+            hasf = "0" if math.isinf(f_inv) else "1"
+            ans = drv.ask([f"c06 f frameP {hasf} {fline(a, 0.0 if math.isinf(f_inv) else f_inv)} {fline(*c['trs'][i])}" for i in range(m)])
+            for i in range(m):
+                ci = {**c, "i": i, "on": which}
+                mod = floats(ans[i])
+                # ---- correspondence: the model on the parameters of *this* ellipsoid
+                if not allclose(got["t2e"][i].ravel(), mod[:9], ulp=4, abs_=1e-15):
+                    gdisagree(ctx, "Position.trs2enu on a user-built ellipsoid (trs2llh on its parameters + rotation.trs2enu, Float model)", ci, mod[:9], got["t2e"][i].ravel().tolist())
+                if abs(got["llh"][i][0] - mod[9]) > 2e-15 or abs(got["llh"][i][2] - mod[11]) > 1e-8 + 8 * math.ulp(a + abs(mod[11])):
+                    gdisagree(ctx, "Position.llh on a user-built ellipsoid (Float model of trs2llh on its parameters)", ci, mod[9:], got["llh"][i].tolist())
+                menu = floats(drv.ask1(f"c06 f mulvec {fline(*mod[:9])} {fline(*c['delta'][i])}"))
+                nd = float(np.linalg.norm(c["delta"][i]))
+                if worst(got["enu"][i], menu) > 8 * 2.3e-16 * nd + 1e-300:
+                    gdisagree(ctx, "delta.enu on a user-built ellipsoid (Float model)", ci, menu, got["enu"][i].tolist())
+                maz, mel, mzd = floats(drv.ask1(f"c06 f azel {fline(mod[9], mod[10])} {fline(*c['trs'][i])} {fline(*c['target_trs'][i])}"))
+                cosel = max(math.cos(mel), 1e-7)
+                daz = abs(got["az"][i] - maz)
+                if min(daz, abs(daz - 2 * PI)) > 1e-12 / cosel**2 or abs(got["el"][i] - mel) > 1e-12 / cosel**2 or abs(got["zd"][i] - mzd) > 1e-12 / cosel**2:
+                    gdisagree(ctx, "azimuth/elevation/zenith_distance on a user-built ellipsoid (Float model)", ci, [maz, mel, mzd], [float(got["az"][i]), float(got["el"][i]), float(got["zd"][i])])
+                # ---- oracle: the triad is the geodetic one of these coordinates on the ellipsoid with *these* parameters
+                lat, lon, h = own_trs2llh(a, f_inv, *c["trs"][i])
+                b = a * (1 - (0.0 if math.isinf(f_inv) else 1.0 / f_inv))
+                pos_tol = 1e-6 + 4 * math.ulp(a + abs(h))
+                lat_tol = pos_tol / (b + h)
+                lon_tol = pos_tol / max((a + h) * abs(math.cos(lat)), 1e-30)
+                triad_oracle(ctx, got["e2t"][i], lat, lon, ci, f"Position.enu2trs on {name!r} (a={a!r}, 1/f={f_inv!r}) defined by the user", lat_tol, lon_tol)
+                up = np.array([math.cos(lat) * math.cos(lon), math.cos(lat) * math.sin(lon), math.sin(lat)])
+                d = np.array(c["delta"][i])
+                if abs(got["enu"][i][2] - float(up @ d)) > (REL + 2 * lat_tol) * nd + 1e-300:
+                    gviolate(ctx, "user-ellipsoid:up-component", f"up component {got['enu'][i][2]!r} of delta.enu on {name!r} (a={a!r}, 1/f={f_inv!r}) but the projection on that ellipsoid's normal is {float(up @ d)!r}", ci)
+                u = np.array(c["target_trs"][i]) - np.array(c["trs"][i])
+                want_el = math.asin(max(-1.0, min(1.0, float(up @ u) / float(np.linalg.norm(u)))))
+                if abs(got["el"][i] - want_el) > (1e-9 + 2 * lat_tol) / max(math.cos(want_el), 1e-4):
+                    gviolate(ctx, "user-ellipsoid:elevation", f"elevation {float(got['el'][i])!r} on {name!r} (a={a!r}, 1/f={f_inv!r}) but the angle above that ellipsoid's tangent plane is {want_el!r}", ci)
+    finally:
+        # leave the registry as it was (the user names do not stay behind for the other blocks)
+        ellipsoid._ELLIPSOIDS.clear()
+        ellipsoid._ELLIPSOIDS.update(registry_before)
+    # equal parameters give equal frames whatever the names; read again on the first gives what it gave before
+    if c["mode"] == "other name, same axes" and {"first", "second"} <= set(results):
+        for nme in ("t2e", "llh", "enu", "az", "el"):
+            if not np.array_equal(results["first"][nme], results["second"][nme]):
+                gviolate(ctx, "user-ellipsoid:equal-parameters-equal-frames", f"{nme} differs between two ellipsoids with equal parameters and different names", c)
+                break
+
+
+
+# --------------------------------------------------------------------------------------------------
 # along / cross / radial
 
 
@@ -1388,6 +1522,8 @@ def replay(payload):
             one_history(ctx, c)
         elif fn == "rows of an array":
             one_indexed(ctx, c)
+        elif fn == "user ellipsoids":
+            one_user_ellipsoids(ctx, c)
         elif fn == "corpus":
             corpus_case(ctx, c)
         else:
